@@ -4,6 +4,7 @@ import (
 	"fmt"
 	"go/token"
 	"go/types"
+	"sort"
 	"strings"
 
 	"golang.org/x/tools/go/ssa"
@@ -358,7 +359,15 @@ var d4Allowed = map[string]string{
 }
 
 func ruleD4(c *Ctx) {
-	ambient := map[string]bool{"time.Now": true, "os.Getpid": true, "os.Environ": true, "os.Getenv": true, "hash/maphash.MakeSeed": true, "os.Hostname": true, "time.Since": true}
+	ambient := map[string]bool{"time.Now": true, "os.Getpid": true, "os.Environ": true, "os.Getenv": true, "hash/maphash.MakeSeed": true, "os.Hostname": true, "time.Since": true,
+		// recycled objects carry whatever an earlier (or concurrent) execution left in them
+		"(*sync.Pool).Get": true,
+		// hashing with a per-process seed
+		"hash/maphash.Comparable": true, "hash/maphash.String": true, "hash/maphash.Bytes": true, "hash/maphash.WriteComparable": true}
+	// allowedWhat narrows an allowance to one kind of source (prefix of the description)
+	allowedWhat := map[string]string{
+		"lib/time.init": "reference to time.Now",
+	}
 	allowedFn := map[string]string{
 		"lib/time.init":             "lib/time's NowFunc default: the documented, host-replaceable clock of the time module",
 		"starlark.init":             "per-process hash seed, confined to bucket selection (D3)",
@@ -373,10 +382,12 @@ func ruleD4(c *Ctx) {
 		"(*starlark.hashtable).dump": "debugging aid, unreachable from the API",
 		"(*lib/proto.Message).Hash": "identity hash of a message (lib/proto is outside this property's quantifier)",
 		"starlark.init#1":           "package initialisation",
+		"starlark.hashString":       "the seeded string hash itself; its result is confined to bucket selection by rule D3",
 		"lib/time.now":              "time.now(): reads the host clock through NowFunc by design",
 	}
 	n := 0
-	for _, fn := range c.P.Funcs {
+	sort.Slice(c.P.InitFuncs, func(i, j int) bool { return c.P.InitFuncs[i].String() < c.P.InitFuncs[j].String() })
+	for _, fn := range append(append([]*ssa.Function{}, c.P.Funcs...), c.P.InitFuncs...) {
 		if !isProdPkg(fnPkgPath(fn)) {
 			continue
 		}
@@ -385,7 +396,11 @@ func ruleD4(c *Ctx) {
 			switch x := in.(type) {
 			case ssa.CallInstruction:
 				if cal := x.Common().StaticCallee(); cal != nil {
-					if ambient[cal.String()] || strings.HasPrefix(cal.String(), "math/rand.") || strings.HasPrefix(cal.String(), "(*math/rand.") {
+					name := cal.String()
+					if o := cal.Origin(); o != nil {
+						name = o.String() // instantiation of a generic function
+					}
+					if ambient[name] || ambient[cal.String()] || strings.HasPrefix(cal.String(), "math/rand.") || strings.HasPrefix(cal.String(), "(*math/rand.") {
 						what = "call " + cal.String()
 					}
 				}
@@ -421,7 +436,7 @@ func ruleD4(c *Ctx) {
 					top = relPkg(fnPkgPath(fn)) + ".init"
 				}
 			}
-			if r, ok := allowedFn[top]; ok {
+			if r, ok := allowedFn[top]; ok && strings.HasPrefix(what, allowedWhat[top]) {
 				c.except(key, c.P.Pos(in.Pos()), r)
 			} else if what == "pointer-to-integer conversion" && isIntRepr(fn) {
 				c.except(key, c.P.Pos(in.Pos()), "small-int encoding in the pointer word of starlark.Int (a value, not an address)")
